@@ -4,6 +4,7 @@
 
 mod codec;
 mod client;
+mod net;
 mod proto;
 mod stream;
 
